@@ -179,9 +179,15 @@ def gen(rng):
         reply = rng.choice([','.join(map(str, perm)), ','.join(map(str, perm[:3])), '0-%d' % (m - 1), ','.join(map(str, reversed(range(m)))), reply])
         if rng.random() < 0.7:
             argv = [a for a in argv if a == 'trash-restore' or a.startswith('--sort') or a in ('date', 'path', 'none')] + ['/']
+    if rng.random() < 0.1 and not twins[0] and not nested:
+        # --overwrite changes nothing about WHAT is offered and restored (the destinations are free here; most of their
+        # directories do not exist any more)
+        argv.insert(1, '--overwrite')
     stdin = reply + '\n' if rng.random() < 0.9 else (reply if rng.random() < 0.5 else '')
     return dict({
-        'world': {'mounts': L['mounts'], 'steps': steps},
+        # (6 % of the worlds with volumes: one of them is under systemd / autofs automount control - the mount table names its
+        # mount point twice, the autofs placeholder first)
+        'world': dict({'mounts': L['mounts'], 'steps': steps}, **({'automount': [rng.choice(L['vols'])]} if L['vols'] and rng.random() < 0.06 else {})),
         'procs': [{'argv': argv, 'env': L['env'], 'cwd': cwd, 'uid': L['uid'], 'stdin': stdin}],
         'dirsalt': rng.randrange(1 << 30),
     }, **({'clock': TG.dst_clock(rng)} if dstmode else {}))
